@@ -17,7 +17,15 @@
     - [fresh fx S] the model after loading the sets [S] once into an empty instance;
     - [wf_history] a rule set is only created when it does not exist;
     - [guard_dupid ops] some rule set submitted in [ops] has two rules with the same
-      id (open finding C06-F6);
+      id (finding C06-F6, repaired by fix: commit 5e2c60e: the rule-set processor now
+      refuses such a rule set).  [run] is the repository WITHOUT that check; the
+      system as it is now is [prun true] / [pstep true] (C06/Processor.v): the
+      repository behind the processor, with the specification [pspec_ok] /
+      [pcurrent] / [pwf] / [pdirty] in which a rule set with a duplicate id cannot be
+      applied.  THE MAIN STATEMENTS FOR THE TREE AS IT IS NOW ARE THE
+      [C06_F6_repaired_*] THEOREMS near the end of this file: they have no
+      hypothesis on ids.  The theorems right below are the same statements for the
+      bare repository, with the hypothesis [guard_dupid ops = false];
     - [dirty ops] the sources that, after [ops], are in the state the open findings
       C06-F1 (an update re-appended a changed rule behind unchanged siblings on the
       same expression, or ignored a reordering) or C06-F2 (an accepted rule set in
@@ -109,8 +117,8 @@ Theorem C06_same_source_constraint : forall ops,
 Proof. exact now_node_has_one_source. Qed.
 Print Assumptions C06_same_source_constraint.
 
-(** ** the open findings: each guard fires on a history on which the property
-    fails, for the tree as it is now *)
+(** ** the open findings C06-F1, C06-F2: each guard fires on a history on which
+    the property fails, for the tree as it is now *)
 
 Theorem C06_F1_refuted : exists ops meth path,
   wf_history ops = true /\ guard_F1 ops = true /\
@@ -124,13 +132,7 @@ Theorem C06_F2_refuted : exists ops meth path,
 Proof. exists w_F2, 0, "/y"%string. destruct w_F2_now as (A & B & C & D). rewrite C, D. repeat split; auto. discriminate. Qed.
 Print Assumptions C06_F2_refuted.
 
-Theorem C06_F6_refuted : exists ops meth path,
-  wf_history ops = true /\ guard_dupid ops = true /\
-  m_answer (run all_fix ops) meth path <> m_answer (fresh all_fix (current ops)) meth path.
-Proof. exists w_F6_now, 0, "/p"%string. destruct w_F6_now_ok as (A & B & C & D). rewrite C, D. repeat split; auto. discriminate. Qed.
-Print Assumptions C06_F6_refuted.
-
-(** ** the repaired findings C06-F3, F4, F5: witnesses for the pinned commit
+(** ** the repaired findings C06-F3, F4, F5 (and F6, below): witnesses for the pinned commit
     ([no_fix]; F3 and F5 on the transcribed tree: node compression, key names) *)
 
 Theorem C06_F3_pinned_refuted : exists ops meth path,
@@ -156,6 +158,15 @@ Theorem C06_F5_pinned_refuted : exists ops meth path,
   t_answer (t_run ops) meth path <> t_answer (t_run (fresh_ops (current ops))) meth path.
 Proof. exists w_F5, 0, "/a/1"%string. destruct w_F5_ok as (A & B & C & D). rewrite C, D. repeat split; auto. discriminate. Qed.
 Print Assumptions C06_F5_pinned_refuted.
+
+(** C06-F6 (repaired by 5e2c60e in the processor): the bare repository [run], which
+    a rule set with a duplicate id still reaches in this model, loses the unchanged
+    twin; with the processor's check the same history passes ([C06_F6_repaired_example]) *)
+Theorem C06_F6_pinned_refuted : exists ops meth path,
+  wf_history ops = true /\ guard_dupid ops = true /\
+  m_answer (run all_fix ops) meth path <> m_answer (fresh all_fix (current ops)) meth path.
+Proof. exists w_F6_now, 0, "/p"%string. destruct w_F6_now_ok as (A & B & C & D). rewrite C, D. repeat split; auto. discriminate. Qed.
+Print Assumptions C06_F6_pinned_refuted.
 
 (** with the repairs the same witnesses pass (models with [all_fix]) *)
 Example C06_repaired_examples :
@@ -286,8 +297,8 @@ Example C06_tree_prune_merge_example :
 Proof. vm_compute. split; [reflexivity | discriminate]. Qed.
 Print Assumptions C06_tree_prune_merge_example.
 
-(** ** READY FOR THE REPAIR OF C06-F6 (fixes/C06-F6.diff: the rule-set processor
-    refuses a rule set in which a rule id occurs twice).  [prun true] / [pstep true]
+(** ** THE TREE AS IT IS NOW, behind the rule-set processor (fix: commit 5e2c60e
+    for C06-F6: the processor refuses a rule set in which a rule id occurs twice).  [prun true] / [pstep true]
     are the repository behind that processor, [pcurrent] / [pspec_ok] / [pwf] /
     [pdirty] the specification in which such a rule set cannot be applied.  "No
     duplicate ids" is then a consequence of acceptance, not a hypothesis. *)
